@@ -255,6 +255,11 @@ impl Graph {
         };
     }
 
+    /// front matter of a note, as `to_markdown` writes it back
+    pub fn front_matter(&self, key: &Key) -> Option<String> {
+        self.metadata.get(key).cloned()
+    }
+
     pub fn to_markdown(&self, key: &Key) -> String {
         let markdown = self
             .collect(key)
